@@ -46,11 +46,22 @@ def rule_table(ctx) -> None:
     w = ctx.func(SNAP + ":write_snapshot")
     l = ctx.func(SNAP + ":load_latest_snapshot")
     reads = set()
+    # the parsed body: the second element unpacked from _read_header_payload(...) (and what apply_delta rebuilds into it)
+    body_vars: Set[str] = set()
+    for x in walk_no_defs(l.node):
+        if isinstance(x, ast.Assign) and isinstance(x.value, ast.Call) and call_tail(x.value) == "_read_header_payload" and isinstance(x.targets[0], ast.Tuple) and len(x.targets[0].elts) == 2 \
+                and isinstance(x.targets[0].elts[1], ast.Name):
+            body_vars.add(x.targets[0].elts[1].id)
+    # keep only the variable that is also (re)assigned from apply_delta / read after the header logic: the loader's body
+    main = {v for v in body_vars if any(isinstance(x, ast.Assign) and isinstance(x.value, ast.Call) and call_tail(x.value) == "apply_delta" and any(isinstance(t, ast.Name) and t.id == v for t in x.targets) for x in walk_no_defs(l.node))}
+    body_vars = main or body_vars
+    if not body_vars:
+        raise AnalysisError("anchor-vanished: parsed snapshot body in load_latest_snapshot")
     for x in walk_no_defs(l.node):
         if isinstance(x, ast.Call) and isinstance(x.func, ast.Attribute) and x.func.attr == "get" and x.args and const_str(x.args[0]) is not None:
             base = x.func.value
             names = {y.id for y in ast.walk(base) if isinstance(y, ast.Name)}
-            if "data" in names:
+            if names & body_vars:
                 reads.add(const_str(x.args[0]))
     ctx.floor("C06.TABLE", "body keys read by the loader", len(reads), 3)
     cfg = ctx.cfg(w)
@@ -58,6 +69,16 @@ def rule_table(ctx) -> None:
     if not body_writes:
         raise AnalysisError("anchor-vanished: write_snapshot body write")
     bw = [n for n, _ in body_writes]
+    # the body object: what json.dumps serialises for the body write
+    pvars: Set[str] = set()
+    for n, c in body_writes:
+        for y in ast.walk(c):
+            if isinstance(y, ast.Call) and call_tail(y) == "dumps" and y.args and isinstance(y.args[0], ast.Name):
+                pvars.add(y.args[0].id)
+            if call_tail(c) == "atomic_write_json" and len(c.args) > 1 and isinstance(c.args[1], ast.Name):
+                pvars.add(c.args[1].id)
+    if not pvars:
+        raise AnalysisError("anchor-vanished: object serialised by the snapshot body write")
 
     def writes_key(n, k) -> bool:
         a = n.ast
@@ -67,13 +88,13 @@ def rule_table(ctx) -> None:
             v = a.value
             tg = a.targets if isinstance(a, ast.Assign) else [a.target]
             for t in tg:
-                if isinstance(t, ast.Name) and t.id == "payload" and isinstance(v, ast.Dict):
+                if isinstance(t, ast.Name) and t.id in pvars and isinstance(v, ast.Dict):
                     if any(const_str(kk) == k for kk in v.keys):
                         return True
-                if isinstance(t, ast.Subscript) and isinstance(t.value, ast.Name) and t.value.id == "payload" and const_str(t.slice) == k:
+                if isinstance(t, ast.Subscript) and isinstance(t.value, ast.Name) and t.value.id in pvars and const_str(t.slice) == k:
                     return True
         for c in node_calls(n):
-            if isinstance(c.func, ast.Attribute) and c.func.attr == "setdefault" and isinstance(c.func.value, ast.Name) and c.func.value.id == "payload" \
+            if isinstance(c.func, ast.Attribute) and c.func.attr == "setdefault" and isinstance(c.func.value, ast.Name) and c.func.value.id in pvars \
                     and c.args and const_str(c.args[0]) == k:
                 return True
         return False
@@ -94,11 +115,12 @@ def rule_table(ctx) -> None:
             item_w |= {const_str(k) for k in x.args[0].keys if const_str(k)}
     top_r, item_r = set(), set()
     sp = im.params[1]
+    loop_vars = {x.target.id for x in walk_no_defs(im.node) if isinstance(x, ast.For) and isinstance(x.target, ast.Name)}
     for x in walk_no_defs(im.node):
         if isinstance(x, ast.Compare) and isinstance(x.ops[0], ast.In) and const_str(x.left) and isinstance(x.comparators[0], ast.Name) and x.comparators[0].id == sp:
             top_r.add(const_str(x.left))
         if isinstance(x, ast.Call) and isinstance(x.func, ast.Attribute) and x.func.attr == "get" and isinstance(x.func.value, ast.Name) \
-                and x.func.value.id == "item" and x.args and const_str(x.args[0]):
+                and x.func.value.id in loop_vars and x.args and const_str(x.args[0]):
             item_r.add(const_str(x.args[0]))
     ctx.check(top_r == top_w and len(top_w) >= 2, "C06.TABLE", f"{SNAP}/store-sections", "snapshot.py",
               f"store exporter writes and importer reads sections {sorted(top_w)}", f"store sections disagree: written {sorted(top_w)} read {sorted(top_r)}")
